@@ -22,6 +22,7 @@ This file restates the theorems the property rests on (full statements; proofs a
 Generated once by harness/mkprops.py from harness/props_table.py + PGProperties/extra/C19.lean.in; committed as source.
 -/
 import PGProofs.InferenceThm
+import PGProofs.InferenceLabels
 import PGProofs.CacheThm
 
 set_option linter.all false
@@ -54,6 +55,30 @@ theorem create_run : ∀ (bounds : List (ℚ × ℚ)) (g : Inference.X0) (cached
 /-- the pre-fix create_run kept the parent's start values -/
 theorem create_run_pinned_defect : Inference.createRun false [(0, 1)] (some [5]) (some [1]) [0] = Except.ok [1] ∧ Inference.createRun true [(0, 1)] (some [5]) (some [1]) [0] = Except.error Inference.Err.valueError ∧ Inference.createRun false [(0, 1)] (some [0]) (some [1]) [1] = Except.ok [1] ∧ Inference.createRun true [(0, 1)] (some [0]) (some [1]) [1] = Except.ok [0] := @PG.Inference.create_run_pinned_defect
 
+/-- dict level: for x0 listed in ANY key order, every start point and any box-respecting optimiser, params_inferred carries the keys of x0, each value lies in ITS OWN bounds, loss_inferred is the loss at params_inferred and the minimum of loss_runs -/
+theorem labels_within_bounds : ∀ (opt : Inference.Optimizer) (L : Inference.KV ℚ → ℚ) (bounds : Inference.KV (ℚ × ℚ)) (x0 : Inference.KV ℚ) (samples : List (Inference.KV ℚ)), List.Nodup (List.map Prod.fst bounds) → List.Perm (List.map Prod.fst x0) (List.map Prod.fst bounds) → (∀ s ∈ samples, List.map Prod.fst s = List.map Prod.fst bounds) → (∀ kb ∈ bounds, kb.2.1 ≤ kb.2.2) → (∀ (start : List ℚ) (bs : List (ℚ × ℚ)) (obj : List ℚ → ℚ), List.length start = List.length bs → (∀ b ∈ bs, b.1 ≤ b.2) → List.length (opt start bs obj) = List.length bs ∧ ∀ p ∈ List.zip bs (opt start bs obj), p.1.1 ≤ p.2 ∧ p.2 ≤ p.1.2) → ∃ p f runs, Inference.runLabelled Inference.Variant.repaired opt L bounds x0 samples = some (p, f, runs) ∧ List.map Prod.fst p = List.map Prod.fst x0 ∧ (∀ kv ∈ p, ∃ b, Inference.lookup bounds kv.1 = some b ∧ b.1 ≤ kv.2 ∧ kv.2 ≤ b.2) ∧ f = L p ∧ List.length runs = List.length samples + 1 ∧ (∀ r ∈ runs, f ≤ r) ∧ f ∈ runs := @PG.Inference.C19_labels_within_bounds
+
+/-- every bounded parameter is reported, inside its own box -/
+theorem labels_lookup : ∀ (opt : Inference.Optimizer) (L : Inference.KV ℚ → ℚ) (bounds : Inference.KV (ℚ × ℚ)) (x0 : Inference.KV ℚ) (samples : List (Inference.KV ℚ)), List.Nodup (List.map Prod.fst bounds) → List.Perm (List.map Prod.fst x0) (List.map Prod.fst bounds) → (∀ s ∈ samples, List.map Prod.fst s = List.map Prod.fst bounds) → (∀ kb ∈ bounds, kb.2.1 ≤ kb.2.2) → InfLab.RespectsBoxes opt → ∃ p f runs, Inference.runLabelled Inference.Variant.repaired opt L bounds x0 samples = some (p, f, runs) ∧ ∀ kb ∈ bounds, ∃ v, Inference.lookup p kb.1 = some v ∧ kb.2.1 ≤ v ∧ v ≤ kb.2.2 := @PG.Inference.C19_labels_lookup_within_bounds
+
+/-- the key order in which x0 is written does not change the result (label-equivariant optimiser, order-insensitive loss) -/
+theorem labels_order_irrelevant : ∀ (opt : Inference.Optimizer) (L : Inference.KV ℚ → ℚ) (bounds : Inference.KV (ℚ × ℚ)) (x0 x0' : Inference.KV ℚ) (samples : List (Inference.KV ℚ)), List.Nodup (List.map Prod.fst bounds) → List.Perm (List.map Prod.fst x0) (List.map Prod.fst bounds) → (∀ s ∈ samples, List.map Prod.fst s = List.map Prod.fst bounds) → List.Perm x0 x0' → (∀ (a b : Inference.KV ℚ), List.Perm a b → L a = L b) → InfLab.LabelEquivariant opt → ∃ p p' f runs, Inference.runLabelled Inference.Variant.repaired opt L bounds x0 samples = some (p, f, runs) ∧ Inference.runLabelled Inference.Variant.repaired opt L bounds x0' samples = some (p', f, runs) ∧ List.Perm p p' ∧ ∀ (k : String), Inference.lookup p k = Inference.lookup p' k := @PG.Inference.C19_labels_order_irrelevant
+
+/-- kernel-checked: the pre-fix _run reports swapped names / values outside their bounds when a sampled start wins -/
+theorem labels_pinned_defect : Inference.runLabelled Inference.Variant.pinned Inference.clampOpt Inference.exLoss Inference.exBounds Inference.exX0 Inference.exSamples = some ([("m", 12), ("N", 1 / 4)], 0, [145 / 16, 0]) ∧ Inference.inOwnBox Inference.exBounds "m" 12 = false ∧ Inference.inOwnBox Inference.exBounds "N" (1 / 4) = false ∧ Inference.exLoss [("m", 12), ("N", 1 / 4)] = 2209 / 8 ∧ ¬∃ p f runs, Inference.runLabelled Inference.Variant.pinned Inference.clampOpt Inference.exLoss Inference.exBounds Inference.exX0 Inference.exSamples = some (p, f, runs) ∧ ∀ kv ∈ p, ∃ b, Inference.lookup Inference.exBounds kv.1 = some b ∧ b.1 ≤ kv.2 ∧ kv.2 ≤ b.2 := @PG.Inference.C19_labels_pinned_counterexample
+
+/-- kernel-checked: pre-fix loss_inferred is not the loss at params_inferred -/
+theorem labels_pinned_loss : ¬∃ p f runs, Inference.runLabelled Inference.Variant.pinned Inference.clampOpt Inference.exLoss Inference.exBounds Inference.exX0 Inference.exSamples = some (p, f, runs) ∧ f = Inference.exLoss p := @PG.Inference.C19_labels_pinned_loss_mismatch
+
+/-- kernel-checked: _optimize with list(bounds.values()) optimises under another parameter's bounds -/
+theorem labels_bounds_values_defect : Inference.runLabelled Inference.Variant.boundsValues Inference.clampOpt Inference.exLoss Inference.exBounds Inference.exX0 Inference.exSamples = some ([("m", 10), ("N", 1)], 3457 / 16, [3457 / 16, 3457 / 16]) ∧ Inference.inOwnBox Inference.exBounds "m" 10 = false ∧ Inference.inOwnBox Inference.exBounds "N" 1 = false ∧ ¬∃ p f runs, Inference.runLabelled Inference.Variant.boundsValues Inference.clampOpt Inference.exLoss Inference.exBounds Inference.exX0 Inference.exSamples = some (p, f, runs) ∧ ∀ kv ∈ p, ∃ b, Inference.lookup Inference.exBounds kv.1 = some b ∧ b.1 ≤ kv.2 ∧ kv.2 ≤ b.2 := @PG.Inference.C19_labels_boundsValues_counterexample
+
+/-- the hypotheses of labels_within_bounds are met by a concrete instance -/
+theorem labels_nonvacuous : ∃ p f runs, Inference.runLabelled Inference.Variant.repaired Inference.clampOpt Inference.exLoss Inference.exBounds Inference.exX0 Inference.exSamples = some (p, f, runs) ∧ List.map Prod.fst p = List.map Prod.fst Inference.exX0 ∧ (∀ kv ∈ p, ∃ b, Inference.lookup Inference.exBounds kv.1 = some b ∧ b.1 ≤ kv.2 ∧ kv.2 ≤ b.2) ∧ f = Inference.exLoss p ∧ List.length runs = List.length Inference.exSamples + 1 ∧ (∀ r ∈ runs, f ≤ r) ∧ f ∈ runs := @PG.Inference.ex_theorem_applies
+
+/-- the driver command inferlab computes the labelling part of the proved function -/
+theorem labels_driver : ∀ (v : Inference.Variant) (opt : Inference.Optimizer) (L : Inference.KV ℚ → ℚ) (bounds : Inference.KV (ℚ × ℚ)) (x0 : Inference.KV ℚ) (samples : List (Inference.KV ℚ)), Inference.runLabelled v opt L bounds x0 samples = Option.bind (Inference.startPoints v x0 samples) fun starts ↦ Option.bind (Inference.allSome (List.map (Inference.runOne v opt L bounds) starts)) (Inference.labelResults (List.map Prod.fst x0)) := @PG.InfLab.runLabelled_eq_labelResults
+
 /-- shared state spaces do not change answers -/
 theorem cache_transparent : ∀ {E M : Type} [inst : BEq E] [LawfulBEq E] (compute : E → M) (s : Cache.State E M), Cache.Inv compute s → ∀ (ops : List (Cache.Op E)), (Cache.run compute s ops).2 = Cache.specRun compute s.epoch ops := @PG.Cache.C17_refinement
 
@@ -67,4 +92,12 @@ end PG.C19
 #print axioms PG.C19.bootstrap_rows
 #print axioms PG.C19.create_run
 #print axioms PG.C19.create_run_pinned_defect
+#print axioms PG.C19.labels_within_bounds
+#print axioms PG.C19.labels_lookup
+#print axioms PG.C19.labels_order_irrelevant
+#print axioms PG.C19.labels_pinned_defect
+#print axioms PG.C19.labels_pinned_loss
+#print axioms PG.C19.labels_bounds_values_defect
+#print axioms PG.C19.labels_nonvacuous
+#print axioms PG.C19.labels_driver
 #print axioms PG.C19.cache_transparent
